@@ -8,6 +8,7 @@ import (
 	"context"
 	"errors"
 	"fmt"
+	"math"
 	"strings"
 	"sync"
 	"sync/atomic"
@@ -46,7 +47,7 @@ func genScript(rt *rapid.T, race bool) Script {
 	s.Modern = rapid.IntRange(0, 3).Draw(rt, "modern") == 0
 	n := rapid.IntRange(1, 30).Draw(rt, "n")
 	for i := 0; i < n; i++ {
-		st := Step{Kind: rapid.SampledFrom([]string{"ccall", "ccall", "scall", "nested", "notify", "snotify", "release", "release", "close", "close", "wait", "fail", "vanish", "late", "late", "latenotify", "sleep", "rejectnotes", "halfvanish"}).Draw(rt, "kind")}
+		st := Step{Kind: rapid.SampledFrom([]string{"ccall", "ccall", "scall", "nested", "notify", "snotify", "release", "release", "close", "close", "wait", "fail", "vanish", "late", "late", "latenotify", "sleep", "rejectnotes", "halfvanish", "badnotify"}).Draw(rt, "kind")}
 		st.Side = rapid.SampledFrom([]string{"client", "server"}).Draw(rt, "side")
 		st.I = rapid.IntRange(0, 7).Draw(rt, "i")
 		if race {
@@ -324,6 +325,18 @@ func runInBubble(s Script) (res vt.Result) {
 				return cs.NotifyProgress(bg, &mcp.ProgressNotificationParams{ProgressToken: "p", Progress: 1})
 			})
 			desc.WriteString("p")
+		case "badnotify": // a notification whose params no JSON encoder can write (progress NaN): refused locally, nothing is sent
+			if st.Side == "client" {
+				start("client notify (unencodable)", func() error {
+					return cs.NotifyProgress(bg, &mcp.ProgressNotificationParams{ProgressToken: "p", Progress: math.NaN()})
+				})
+			} else {
+				start("server notify (unencodable)", func() error {
+					return ss.NotifyProgress(bg, &mcp.ProgressNotificationParams{ProgressToken: "p", Progress: math.NaN()})
+				})
+			}
+			res.Class("notification_that_cannot_be_encoded")
+			desc.WriteString("b")
 		case "snotify":
 			start("server notify", func() error {
 				return ss.NotifyProgress(bg, &mcp.ProgressNotificationParams{ProgressToken: "p", Progress: 1})
